@@ -163,10 +163,11 @@ structure Result where
   pc : PC
   filterFrom : Option Text
 
-/-- `EnumerateApp.asConfig` on a loaded configuration -/
-def asConfig (w : IniWorld) (l10nbase : Text) (cfg : Loaded) : Except Err Result :=
-  -- `ProjectConfig(None)`, `set_root(".")` (stays None), `add_environment(l10n_base=abspath(l10nbase))`
-  let environ : Env := PM.dupdate [] [(l10nBaseName, abspath w.cwd l10nbase)]
+/-- `EnumerateApp.asConfig` on a loaded configuration; `absBase` = `self.l10nbase`, which `__init__` set to
+    `mozpath.abspath(l10nbase)` -/
+def asConfigAbs (w : IniWorld) (absBase : Text) (cfg : Loaded) : Except Err Result :=
+  -- `ProjectConfig(None)`, `set_root(".")` (stays None), `add_environment(l10n_base=self.l10nbase)`
+  let environ : Env := PM.dupdate [] [(l10nBaseName, absBase)]
   let paths := cfg.directories.map ruleOfDir
   match checkRules w.cwd environ paths with
   | .error e => .error e
@@ -181,6 +182,10 @@ def asConfig (w : IniWorld) (l10nbase : Text) (cfg : Loaded) : Except Err Result
       match w.locales.lookup (normpath ap) with
       | none => .error (.fileNotFound ap)
       | some ls => .ok { pc := .mk none (setRoot w.cwd none dot) environ paths [] (some ls) [] [], filterFrom := filterFrom }
+
+/-- `__init__` (`self.l10nbase = mozpath.abspath(l10nbase)`) followed by `asConfig()` on the loaded configuration -/
+def asConfig (w : IniWorld) (l10nbase : Text) (cfg : Loaded) : Except Err Result :=
+  asConfigAbs w (abspath w.cwd l10nbase) cfg
 
 /-- `EnumerateApp(inipath, l10nbase).asConfig()` / `EnumerateSourceTreeApp(inipath, basepath, l10nbase, redirects).asConfig()` -/
 def enumerateApp (w : IniWorld) (fl : Flavour) (inipath l10nbase : Text) : Except Err Result :=
